@@ -1,5 +1,8 @@
 """C06 — SubgraphSearchEngine.find_subgraph_mappings = label-preserving monomorphisms.
 
+Round 5: the model receives the graphs with their WHOLE attribute dictionaries and the selections as name lists
+(run_sel_set / run_sel_list / run_sel_api of model/C06_Attrs.v); history cases may carry "family" (targeted histories).
+
 case = {"kind", "host": G, "pattern": G, "na": [node attrs], "ea": [edge attrs],
         "cfgs": [[strategy, max_results|None, threshold|None, strict_cc_count, pre_filter], ...],
         "vf2": None | [[host node list, pattern node list, [[[p, h], ...], ...]], ...]}
@@ -23,7 +26,7 @@ from ..tok import S
 from ..gen import graphs as G
 
 PID = "C06"
-COQ_HEADER = ("From Coq Require Import List NArith.\nFrom SK Require Import lib.Tok lib.LGraph model.C06_Model.\n"
+COQ_HEADER = ("From Coq Require Import List NArith.\nFrom SK Require Import lib.Tok lib.LGraph model.C06_Model model.C06_Attrs.\n"
               "Import ListNotations.\n")
 SHARD = 250
 IMPL_TIMEOUT = 900
@@ -45,7 +48,10 @@ EXPLANATION = ("Exhaustive sub-space: quick = every iso class of hosts <= 3 node
 TRUSTED_BASE = [
     "Coq 8.16.1 kernel + vm_compute (no native_compute)",
     "hand-written model coq/model/C06_Model.v tied to synkit/Graph/Matcher/subgraph_matcher.py by the per-run correspondence",
-    "harness encoder harness/props/C06.py (attribute projection/interning, hcount default 0, threshold default 5000)",
+    "harness encoder harness/props/C06.py: interning of attribute names and values (Python == classes; None = 0), numeric hcount "
+    "next to the dictionary, threshold default 5000 for the non-api populations.  The projection onto node_attrs / edge_attrs, "
+    "the dict.get defaults (None, hcount 0) and the node_match / edge_match closures are in the MODEL since round 5 "
+    "(model/C06_Attrs.v; C06_sel_closures, C06_sel_projection)",
     "networkx VF2 subgraph_monomorphisms_iter returns a duplicate-free listing of exactly the label-preserving monomorphisms: a "
     "premise (vf2_contract / oracle_ok) of the all-inputs theorems, NOT assumed for the cases that are run: order-insensitive "
     "cases use the verified enumerator lib/Mono.v as the oracle (proved to satisfy the premise), order-sensitive cases use the "
@@ -69,13 +75,13 @@ TESTED_NOT_PROVED = ["inputs are not modified (pure model; the adapter deep-comp
                      "call spellings that do not reach the model (instance vs class, host/pattern by keyword, tuples for attribute lists)",
                      "the VF2 contract for inputs that were not run (premise of the theorems; discharged inside Coq for every case that "
                      "is run, see TRUSTED_BASE)"]
-LEVEL_TEXT = ("Machine-checked proof (Coq, all inputs, 19 theorems closed under the global context) over an executable, "
+LEVEL_TEXT = ("Machine-checked proof (Coq, all inputs, 25 theorems closed under the global context) over an executable, "
               "structure-following model of SubgraphSearchEngine.find_subgraph_mappings parameterised by the VF2 enumeration: "
               "ALL = exactly the label-preserving monomorphisms, duplicate-free (under the VF2 contract, which the verified enumerator "
               "provably meets); COMPONENT = exactly those sending different pattern components into different host components, duplicate-free, all of "
               "them when the host has fewer components, [] under the strict_cc_count guard; BACKTRACK = COMPONENT if non-empty else ALL; "
               "for every max_results/threshold the result is the prefix of length min of the unlimited list, emptied past the threshold, "
-              "or (comp/bt) the per-component enumeration guard fired; the pre-filter skips only when there is provably no match or its documented estimate guard fired; the call interface (strategy spellings, option defaults) is modelled and specified.  Model tied to the code on every run by comparing result "
+              "or (comp/bt) the per-component enumeration guard fired; the pre-filter skips only when there is provably no match or its documented estimate guard fired; the call interface (strategy spellings, option defaults) is modelled and specified; the attribute dictionaries, the selections node_attrs / edge_attrs and the two match closures are modelled (the exhaustive strategy is exact in terms of the caller's dictionaries; a selection is a set of names; a larger selection only removes matches).  Model tied to the code on every run by comparing result "
               "multisets/lists, component partitions and pre-filter verdicts on exhaustive small scopes and random populations.")
 LEVEL_NOTE = ("Trusted: Coq kernel, the model, the harness encoder, the VF2 contract (monitored per case; networkx itself is not "
               "verified).  Not proved: input immutability of the Python code (monitored).")
@@ -347,15 +353,38 @@ class _Codes:
         return self.t[k]
 
 
-def _coq_graph(g, na, ea, codes):
+class _Names:
+    """Attribute NAMES -> key codes (any hashable name; the same table for node and edge attributes)."""
+
+    def __init__(self):
+        self.t = {}
+
+    def __call__(self, k):
+        if not isinstance(k, str):
+            raise TypeError("attribute name outside the model domain: %r" % (k,))
+        if k not in self.t:
+            self.t[k] = len(self.t) + 1
+        return self.t[k]
+
+
+def _coq_dict(a, names, codes):
+    return clist(["(%s, %s)" % (cN(names(k)), cN(codes(v))) for k, v in a.items()])
+
+
+def _coq_rgraph(g, names, codes):
+    """The graph as the caller hands it over: every node / edge with its WHOLE attribute dictionary (names and values
+    interned; value None = 0), plus the numeric hcount when the key is present (it is compared with >=).  The projection
+    onto the selection and the defaults of dict.get are the model's business (model/C06_Attrs.v)."""
     def nl(n, a):
-        hc = a.get("hcount", 0)
-        if not isinstance(hc, int) or hc < 0:          # bool is an int in Python (True >= False)
-            raise TypeError("hcount outside the model domain")
-        return "(%s, %s)" % (clist([cN(codes(a.get(k))) for k in na]), cN(int(hc)))
+        hc = None
+        if "hcount" in a:
+            hc = a["hcount"]
+            if not isinstance(hc, int) or hc < 0:          # bool is an int in Python (True >= False)
+                raise TypeError("hcount outside the model domain")
+        return "(%s, %s)" % (_coq_dict(a, names, codes), copt(None if hc is None else cN(int(hc))))
 
     def el(u, v, a):
-        return clist([cN(codes(a.get(k))) for k in ea])
+        return _coq_dict(a, names, codes)
     return G.coq_lgraph(g, nl, el)
 
 
@@ -365,15 +394,17 @@ def _coq_cfg(cfg):
 
 
 def _coq_pair(host, pattern, na, ea):
-    codes = _Codes()
+    """-> (selection of node names, selection of edge names, host, pattern) as Gallina literals, or None."""
+    names, codes = _Names(), _Codes()
     try:
-        h = _coq_graph(host, na, ea, codes)
-        p = _coq_graph(pattern, na, ea, codes)
+        h = _coq_rgraph(host, names, codes)
+        p = _coq_rgraph(pattern, names, codes)
+        sel = clist([cN(names(k)) for k in na]), clist([cN(names(k)) for k in ea])
     except TypeError:
         return None
     if any(u == v for u, v, _ in host["edges"] + pattern["edges"]):
         return None
-    return h, p
+    return "%s %s %s %s" % (sel[0], sel[1], h, p)
 
 
 def _coq_sarg(sa):
@@ -394,12 +425,11 @@ def coq_case(case):
             hp = _coq_pair(snap["host"], snap["pattern"], snap["na"], snap["ea"])
             if hp is None:
                 return None
-            terms.append("run_set %s %s %s" % (hp[0], hp[1], clist([_coq_cfg(snap["cfg"])])))
+            terms.append("run_sel_set %s %s" % (hp, clist([_coq_cfg(snap["cfg"])])))
         return "L %s" % clist(["(%s)" % t for t in terms])
     hp = _coq_pair(case["host"], case["pattern"], case["na"], case["ea"])
     if hp is None:
         return None
-    h, p = hp
     if kind == "api":
         try:
             calls = clist(["(%s, %s, %s, %s, %s)" % (
@@ -410,20 +440,59 @@ def coq_case(case):
                 copt(cbool(c["pre_filter"])) if "pre_filter" in c else "None") for c in case["calls"]])
         except TypeError:
             return None
-        return "run_api %s %s %s" % (h, p, calls)
+        return "run_sel_api %s %s" % (hp, calls)
     cfgs = clist([_coq_cfg(c) for c in case["cfgs"]])
     if case.get("vf2") is None:
-        return "run_set %s %s %s" % (h, p, cfgs)
+        return "run_sel_set %s %s" % (hp, cfgs)
     tab = clist(["(%s, %s, %s)" % (clist([cN(x) for x in hn]), clist([cN(x) for x in pn]),
                                     clist([clist(["(%s, %s)" % (cN(a), cN(b)) for a, b in m]) for m in ms]))
                  for hn, pn, ms in case["vf2"]])
-    return "run_list %s %s %s %s" % (h, p, tab, cfgs)
+    return "run_sel_list %s %s %s" % (hp, tab, cfgs)
 
 
 # ------------------------------------------------------------------ independent property oracle
 
 def _brute(H, P, na, ea, hnodes=None, pnodes=None):
-    """All injective maps pattern -> host satisfying the property's three conditions."""
+    """All injective maps pattern -> host satisfying the property's three conditions (plain back-tracking straight from the
+    statement: pattern nodes are assigned one by one, a partial assignment is dropped as soon as it repeats a host node or
+    puts a pattern bond on a missing / differently labelled host bond; same output order as the Cartesian-product form)."""
+    hn = list(H.nodes) if hnodes is None else list(hnodes)
+    pn = list(P.nodes) if pnodes is None else list(pnodes)
+    pos = {p: i for i, p in enumerate(pn)}
+    back = [[] for _ in pn]                  # back[i] = [(j < i, pattern edge data)]: bonds to already assigned pattern nodes
+    for u, v, d in P.edges(data=True):
+        if u in pos and v in pos:
+            i, j = max(pos[u], pos[v]), min(pos[u], pos[v])
+            back[i].append((j, d))
+    cand = []
+    for p in pn:
+        pd = P.nodes[p]
+        cand.append([h for h in hn if all(H.nodes[h].get(a) == pd.get(a) for a in na)
+                     and H.nodes[h].get("hcount", 0) >= pd.get("hcount", 0)])
+    out, img = [], []
+
+    def go(i):
+        if i == len(pn):
+            out.append(dict(zip(pn, img)))
+            return
+        for h in cand[i]:
+            if h in img:
+                continue
+            ok = True
+            for j, d in back[i]:
+                if not H.has_edge(img[j], h) or any(H[img[j]][h].get(a) != d.get(a) for a in ea):
+                    ok = False
+                    break
+            if ok:
+                img.append(h)
+                go(i + 1)
+                img.pop()
+    go(0)
+    return out
+
+
+def _brute_product(H, P, na, ea, hnodes=None, pnodes=None):
+    """The same set by filtering the full candidate product (round-1 form; kept as a cross-check of _brute on small inputs)."""
     hn = list(H.nodes) if hnodes is None else list(hnodes)
     pn = list(P.nodes) if pnodes is None else list(pnodes)
     pset = set(pn)
@@ -690,6 +759,7 @@ def distribution(cases, obss):
         for st in c.get("styles") or []:
             inc(d["call_styles"], st)
         if c.get("kind") == "history":
+            inc(d.setdefault("history_families", {}), c.get("family", "random"))
             inc(d["history_steps"], len(c["steps"]))
             for st in c["steps"]:
                 inc(d["history_ops"], st["op"] if st["op"] != "edit" else "edit:" + st["edit"][0])
@@ -1173,6 +1243,282 @@ def _gen_history(rng, n):
     return out
 
 
+# ---- round 4: targeted histories.  One family per quantity that a search could memoise per host / pattern OBJECT; the
+# in-place edit changes THAT quantity and keeps the cheap validators (node count, edge count, label multiset, degree multiset,
+# number of components where possible) unchanged.  Script: searches, edit A->B, the same searches, edit back B->A, the same
+# searches again (so both orders of the two states occur on one pair of objects).
+
+def _components_of(g):
+    par = {n: n for n, _ in g["nodes"]}
+
+    def find(x):
+        while par[x] != x:
+            par[x] = par[par[x]]
+            x = par[x]
+        return x
+    for u, v, _ in g["edges"]:
+        par[find(u)] = find(v)
+    cls = {}
+    for n, _ in g["nodes"]:
+        cls.setdefault(find(n), []).append(n)
+    return list(cls.values())
+
+
+def _rand_component(rng, ids, elements=("C", "C", "C", "O"), hmax=1):
+    """A random tree on the given ids (chain / star / random attachment)."""
+    nodes = [[i, dict(element=rng.choice(elements), charge=0, hcount=rng.randint(0, hmax))] for i in ids]
+    edges = []
+    for k in range(1, len(ids)):
+        edges.append([ids[rng.randrange(k) if rng.random() < 0.5 else k - 1], ids[k], dict(order=rng.choice([1, 1, 2]))])
+    return nodes, edges
+
+
+def _rand_forest(rng, sizes, **kw):
+    nodes, edges, nxt = [], [], 1
+    for s in sizes:
+        n, e = _rand_component(rng, list(range(nxt, nxt + s)), **kw)
+        nodes += n
+        edges += e
+        nxt += s
+    return {"nodes": nodes, "edges": edges}
+
+
+def _fragment(rng, g, comp, k, keep_h=False, seeds=()):
+    """Connected fragment (<= k nodes, induced edges) of the component `comp` of g; it contains the nodes `seeds` of the
+    component (grown towards each other first: a shortest path between consecutive seeds is included)."""
+    adjm = {n: set() for n in comp}
+    for u, v, _ in g["edges"]:
+        if u in adjm and v in adjm:
+            adjm[u].add(v)
+            adjm[v].add(u)
+    seeds = [x for x in seeds if x in adjm]
+    keep = {seeds[0] if seeds else rng.choice(comp)}
+    for x in seeds[1:]:                       # breadth-first path from the kept set to the next seed
+        prev, frontier = {y: None for y in keep}, list(keep)
+        while frontier and x not in prev:
+            nxt = []
+            for y in frontier:
+                for z in sorted(adjm[y]):
+                    if z not in prev:
+                        prev[z] = y
+                        nxt.append(z)
+            frontier = nxt
+        while x is not None and x in prev:
+            keep.add(x)
+            x = prev[x]
+    while len(keep) < k:
+        fr = sorted(set().union(*[adjm[x] for x in keep]) - keep)
+        if not fr:
+            break
+        keep.add(rng.choice(fr))
+    nodes = [[n, dict(a, hcount=(a.get("hcount", 0) if keep_h else 0))] for n, a in g["nodes"] if n in keep]
+    edges = [[u, v, dict(a)] for u, v, a in g["edges"] if u in keep and v in keep]
+    return {"nodes": nodes, "edges": edges}
+
+
+def _multi_pattern(rng, g, ncomp, k=3, keep_h=False, focus=()):
+    """Pattern with `ncomp` components, each a fragment of a different component of g (ids shifted by 100); components of g
+    that contain a `focus` node (a node the in-place edit touches) come first and their fragments contain the focus nodes."""
+    comps = _components_of(g)
+    rng.shuffle(comps)
+    comps.sort(key=lambda c: not any(x in c for x in focus))
+    parts = [_fragment(rng, g, c, rng.randint(1, k), keep_h, [x for x in focus if x in c]) for c in comps[:ncomp]]
+    nodes, edges = [], []
+    for i, part in enumerate(parts):
+        mp = {n: 100 + 10 * i + j for j, (n, _) in enumerate(part["nodes"])}
+        r = G.relabel(part, mp)
+        nodes += r["nodes"]
+        edges += r["edges"]
+    return G.shuffle_insertion({"nodes": nodes, "edges": edges}, rng)
+
+
+def _apply(g, edits):
+    import copy
+    g = copy.deepcopy(g)
+    for e in edits:
+        _edit_dict(g, e)
+    return g
+
+
+def _inverse(g, edits):
+    """Inverse edit list (g = the graph BEFORE the edits)."""
+    import copy
+    g = copy.deepcopy(g)
+    inv = []
+    for e in edits:
+        if e[0] == "remove_edge":
+            a = [x for x in g["edges"] if {x[0], x[1]} == {e[1], e[2]}][0][2]
+            inv.append(["add_edge", e[1], e[2], dict(a)])
+        elif e[0] == "add_edge":
+            inv.append(["remove_edge", e[1], e[2]])
+        elif e[0] == "set_node_attr":
+            old = [a for n, a in g["nodes"] if n == e[1]][0].get(e[2])
+            inv.append(["set_node_attr", e[1], e[2], old] if old is not None else ["del_node_attr", e[1], e[2]])
+        elif e[0] == "set_edge_attr":
+            old = [a for u, v, a in g["edges"] if {u, v} == {e[1], e[2]}][0].get(e[3])
+            inv.append(["set_edge_attr", e[1], e[2], e[3], old])
+        else:
+            raise ValueError(e[0])
+        _edit_dict(g, e)
+    return inv[::-1]
+
+
+HIST_FAMILIES = ("cc_move_across", "cc_split_merge", "label_swap", "hcount_swap", "order_swap", "degree_move",
+                 "pattern_cc_move", "pattern_label_swap")
+
+
+def _family_instance(rng, fam):
+    """-> (host, pattern, side, edits, wants_prefilter) or None.  The edits keep node and edge counts (and the label / order
+    multisets); the pattern (host for the pattern-side families) is cut out of one of the two states around the edited
+    nodes, so that the edit decides whether / how it matches."""
+    def degrees(g):
+        deg = {n: 0 for n, _ in g["nodes"]}
+        for u, v, _ in g["edges"]:
+            deg[u] += 1
+            deg[v] += 1
+        return deg
+
+    def either(g, edits):
+        return g if rng.random() < 0.5 else _apply(g, edits)
+
+    if fam in ("cc_move_across", "cc_split_merge", "pattern_cc_move"):
+        pat_side = fam == "pattern_cc_move"
+        sizes = [rng.randint(2, 3 if pat_side else 4)] + [rng.randint(1, 2 if pat_side else 3)
+                                                          for _ in range(rng.randint(1, 2) + (fam == "cc_split_merge"))]
+        g = _rand_forest(rng, sizes, elements=("C", "C", "C", "O") if rng.random() < 0.6 else ("C",))
+        comps = _components_of(g)
+        a_comp = [c for c in comps if len(c) >= 2][0]
+        others = [c for c in comps if c is not a_comp]
+        u, v, attrs = rng.choice([e for e in g["edges"] if e[0] in a_comp])
+        if fam == "cc_split_merge":
+            # a component splits while two other components merge (component COUNT unchanged as well)
+            b, c = rng.sample(others, 2)
+            w1, w2 = rng.choice(b), rng.choice(c)
+            edits = [["remove_edge", u, v], ["add_edge", w1, w2, dict(attrs)]]
+            focus = [u, v, w1, w2]
+        else:
+            # the bond u-v is moved to v-w, w in another component
+            w = rng.choice(rng.choice(others))
+            edits = [["remove_edge", u, v], ["add_edge", v, w, dict(attrs)]]
+            focus = [v, w, u]
+        if pat_side:
+            pat = G.relabel(g, {n: n + 100 for n, _ in g["nodes"]})
+            pedits = [[e[0], e[1] + 100, e[2] + 100] + e[3:] for e in edits]
+            # host: a copy of ONE of the two states of the pattern graph (+ sometimes a further component), hcounts raised
+            host = _union([either(g, edits)] + ([_rand_forest(rng, [rng.randint(1, 3)])] if rng.random() < 0.5 else []))
+            for _, x in host["nodes"]:
+                x["hcount"] = 2
+            return host, pat, "pattern", pedits, False
+        state = either(g, edits)
+        ncomp = rng.randint(2, min(3, len(_components_of(state))))
+        return g, _multi_pattern(rng, state, ncomp, focus=focus if rng.random() < 0.7 else ()), "host", edits, False
+    if fam in ("label_swap", "hcount_swap", "pattern_label_swap"):
+        key = "hcount" if fam == "hcount_swap" else "element"
+        pat_side = fam == "pattern_label_swap"
+        g = _rand_forest(rng, [rng.randint(2, 3 if pat_side else 4) for _ in range(rng.randint(1, 3))],
+                         elements=("C", "C", "C", "O", "N") if rng.random() < 0.6 else ("C", "O", "N"), hmax=2)
+        cof = {n: i for i, c in enumerate(_components_of(g)) for n in c}
+        pairs = [(a, b) for a in g["nodes"] for b in g["nodes"] if a[0] < b[0] and a[1].get(key) != b[1].get(key)]
+        across = [(a, b) for a, b in pairs if cof[a[0]] != cof[b[0]]]
+        if across and rng.random() < 0.7:      # across components: the per-component label multisets change as well
+            pairs = across
+        if not pairs:
+            return None
+        (a, aa), (b, ba) = rng.choice(pairs)
+        edits = [["set_node_attr", a, key, ba.get(key)], ["set_node_attr", b, key, aa.get(key)]]
+        if pat_side:
+            pat = G.relabel(g, {n: n + 100 for n, _ in g["nodes"]})
+            for _, x in pat["nodes"]:
+                x["hcount"] = 0
+            pedits = [[e[0], e[1] + 100] + e[2:] for e in edits]
+            host = _union([either(g, edits), _rand_forest(rng, [rng.randint(1, 3)], elements=("C", "O", "N"), hmax=2)])
+            for _, x in host["nodes"]:      # hcounts raised so that the plant fits
+                x["hcount"] = 2
+            return host, pat, "pattern", pedits, False
+        state = either(g, edits)
+        return (g, _multi_pattern(rng, state, rng.randint(1, len(_components_of(state))), keep_h=(key == "hcount"), focus=[a, b]),
+                "host", edits, False)
+    if fam == "order_swap":
+        g = _rand_forest(rng, [rng.randint(3, 5)] + [rng.randint(1, 3) for _ in range(rng.randint(0, 1))])
+        pairs = [(e, f) for e in g["edges"] for f in g["edges"] if (e[0], e[1]) < (f[0], f[1]) and e[2]["order"] != f[2]["order"]]
+        if not pairs:
+            return None
+        e, f = rng.choice(pairs)
+        edits = [["set_edge_attr", e[0], e[1], "order", f[2]["order"]], ["set_edge_attr", f[0], f[1], "order", e[2]["order"]]]
+        state = either(g, edits)
+        x = rng.choice([e, f])
+        return g, _multi_pattern(rng, state, rng.randint(1, len(_components_of(state))), focus=[x[0], x[1]]), "host", edits, False
+    if fam == "degree_move":
+        # a leaf is re-attached elsewhere inside its component: counts, labels, components unchanged, degrees move.  The
+        # pattern is the new hub with ALL its neighbours in the state where its degree is larger (degree pruning of the
+        # pre-filter: the host has a candidate of that degree in one state only)
+        g = _rand_forest(rng, [rng.randint(4, 6)] + [rng.randint(1, 2) for _ in range(rng.randint(0, 1))])
+        deg = degrees(g)
+        comp = _components_of(g)[0]
+        cands = [(u, v) for u, v, _ in g["edges"] if u in comp and (deg[u] == 1 or deg[v] == 1)]
+        if not cands:
+            return None
+        u, v = rng.choice(cands)
+        leaf, hub = (u, v) if deg[u] == 1 else (v, u)
+        targets = [w for w in comp if w not in (leaf, hub)]
+        if not targets:
+            return None
+        tgt = rng.choice(targets)
+        attrs = [a for x, y, a in g["edges"] if {x, y} == {u, v}][0]
+        edits = [["remove_edge", u, v], ["add_edge", leaf, tgt, dict(attrs)]]
+        if rng.random() < 0.7:
+            state, centre = (g, hub) if rng.random() < 0.3 else (_apply(g, edits), tgt)
+            star = [centre] + sorted({y if x == centre else x for x, y, _ in state["edges"] if centre in (x, y)})
+            pat = _multi_pattern(rng, state, 1, k=len(star), focus=star)
+        else:
+            state = either(g, edits)
+            pat = _multi_pattern(rng, state, rng.randint(1, len(_components_of(state))), k=4, focus=[leaf])
+        return g, pat, "host", edits, True
+    raise ValueError(fam)
+
+
+def _gen_history_targeted(rng, n):
+    """Script: the searches, edit A->B, the same searches, edit back B->A, the same searches (both orders of the two states on
+    ONE pair of objects and one engine); every search step carries the JSON snapshot it should see."""
+    import copy
+    cfg_pool = [["comp", None, None, False, False], ["bt", None, None, False, False], ["comp", None, None, True, False],
+                ["bt", None, None, True, False], ["comp", None, None, False, True], ["bt", None, None, True, True],
+                ["all", None, None, False, True], ["all", None, None, False, False]]
+    out = []
+    k = 0
+    while len(out) < n:
+        fam = HIST_FAMILIES[k % len(HIST_FAMILIES)]
+        k += 1
+        inst = _family_instance(rng, fam)
+        if inst is None:
+            continue
+        h, p, side, edits, want_pref = inst
+        h = G.shuffle_insertion(h, rng)
+        base = {"host": h, "pattern": p}
+        inv = _inverse(base[side], edits)
+        cfgs = [cfg_pool[0 if rng.random() < 0.5 else 1]] + rng.sample(cfg_pool[2:], rng.randint(1, 2))
+        if want_pref and not any(c[4] for c in cfgs):
+            cfgs.append(rng.choice([c for c in cfg_pool if c[4]]))
+        rng.shuffle(cfgs)
+        cur = {"host": copy.deepcopy(h), "pattern": copy.deepcopy(p)}
+        steps, snaps = [], []
+
+        def searches():
+            for cfg in cfgs:
+                steps.append(dict(op="search", cfg=list(cfg), na=list(NA_DEFAULT), ea=list(EA_DEFAULT), swap=False, style="kw"))
+                snaps.append(dict(host=copy.deepcopy(cur["host"]), pattern=copy.deepcopy(cur["pattern"]), na=list(NA_DEFAULT),
+                                  ea=list(EA_DEFAULT), cfg=list(cfg)))
+        searches()
+        for phase in (edits, inv):
+            for e in phase:
+                _edit_dict(cur[side], e)
+                steps.append(dict(op="edit", side=side, edit=e))
+            searches()
+        out.append(dict(kind="history", family=fam, host=h, pattern=p, na=list(NA_DEFAULT), ea=list(EA_DEFAULT), steps=steps,
+                        snaps=snaps, vf2=None))
+    return out
+
+
 def gen_cases(tier, rng):
     cases = []
     q = tier == "quick"
@@ -1221,4 +1567,6 @@ def gen_cases(tier, rng):
         if c is not None:
             cases.append(c)
             k += 1
+    # ---- round 4/5: targeted histories (per-object memo classes; generated last so that the populations above are unchanged)
+    cases += _gen_history_targeted(rng, 120 if q else 2000)
     return cases
